@@ -287,6 +287,13 @@ func runC04(r *Run) {
 	lt := r.Rule("C04.longterm", "NewLongTermIntegrity = MD5(username \":\" realm \":\" password)", 1)
 	checkLongTerm(r, lt)
 	lt.Done()
+	ky := r.Rule("C04.key", "the HMAC implementation behind newHMAC only reads the integrity key (hmac.New and the pool's re-keying never write into or retain the caller's key): the same credential yields the same MAC on every use (shared with C18.keyread)", 2)
+	if ht := namedIn(p.Hmac.Pkg, "hmac"); ht != nil {
+		checkKeyRead(r, ky, []*ssa.Function{p.Hmac.Func("New"), p.MethodOf(ht, "resetTo")})
+	} else {
+		ky.Fail("internal/hmac.hmac", "type not found")
+	}
+	ky.Done()
 	wr := r.Rule("C04.wire", "Decode and everything it calls never write a byte of the message (Raw and views of it): the HMAC is computed over the bytes as received", 1)
 	checkDecodeReadOnly(r, wr)
 	wr.Done()
